@@ -29,6 +29,13 @@ CHECKS = {
              "variables (the early-close deadlock the property text describes lives there). Covered: ASGI StreamResponse/SendEventResponse "
              "(1 item general, 3 items with a zero-delay producer; thorough: 2 items + trailing producer delay), WSGI StreamResponse/NextResponse. "
              "asyncio's own scheduler code runs for real on a virtual clock; ticks bounded (delays 0..20, ping 1..20, disconnect 0..60)."),
+    "C07": dict(
+        technique="fork-on-branch symbolic execution of the real static-file path arithmetic and Files/Pages dispatch over a fully symbolic request path (vendored posixpath on proxies, virtual stat tree), against an independently written segment-stack resolver executed symbolically on the same path",
+        design_ref="DESIGN.md §4 C07",
+        note="Trusted: z3, CPython, forksym; the vendored posixpath and the virtual tree are validated on every path by re-running the unshimmed "
+             "code on real files in a temp directory. Confinement is lexical (no symlinks); one fixed tree with '..name', an index-less directory, "
+             "a sibling whose name extends the directory's and '<dir>.html'. Paths: <=5/<=7 free chars plus '/../'+<=6, <=3+'/index.html', <=4+'.html'. "
+             "'<file>/' may be served or 404 (the statement allows both)."),
     "C08": dict(
         technique="z3 regex-language lemmas on the live convertor patterns; fork-on-branch symbolic execution of the real Route/Router over fully symbolic paths (ReShim) against a first-match oracle built from the statement's type languages; decided arithmetic for int/date/decimal conversion and round trip",
         design_ref="DESIGN.md §4 C08",
